@@ -295,6 +295,20 @@ def run(ctx, R, tier):
         if o.rule == "C13-R4":
             R.add("C07-R7", o.key.split("|", 1)[1], o.desc + " (the daemon sends no reply for communication errors and relies on the connection being dropped: otherwise the caller hangs)",
                   o.ok, o.loc, o.detail)
+    # a streamed item's exception reaches the caller as it is: the server's removal of the stream entry in the failure path cannot itself raise (shared with C10-R1)
+    from . import c10 as _c10
+    R10_ = Rules("C10")
+    _c10.run(ctx, R10_, tier)
+    for o in R10_.obs:
+        if o.key in ("C10-R1|get_next_stream_item|removal-cannot-raise", "C10-R1|get_next_stream_item|handler-reraises"):
+            R.add("C07-R6", "stream|" + o.key.split("|", 2)[2], o.desc + " (a KeyError from the bookkeeping would replace the generator's own exception / StopIteration at the caller)", o.ok, o.loc, o.detail)
+    # the wrapper hands its exception to the same encoder a plain reply uses (class_to_dict: custom converters registered for the exception's class included)
+    wsd = ctx.fn("Pyro5.core._ExceptionWrapper.__serialized_dict__")
+    enc = [c for c in ctx.calls_to(wsd, "Pyro5.serializers.SerializerBase.class_to_dict")]
+    oke = len(enc) == 1 and enc[0].args and unparse(enc[0].args[0]) == "%s.exception" % wsd.self_name
+    R.check(oke, "C07-R5", "wrapper|payload-encoded-by-class_to_dict", "the wrapped exception is encoded by SerializerBase.class_to_dict, like an exception travelling on its own", wsd.loc(),
+            "_ExceptionWrapper.__serialized_dict__ builds the exception's wire form itself: an exception class with a registered class-to-dict converter travels in the generic form "
+            "from a batch (and is refused by the client) while the same call made on its own delivers it")
     # the batch wrapper branch converts its payload under the same test recreate_classes uses
     wb = []
     for n in walk_no_nested(d2c.node):
